@@ -107,8 +107,12 @@ class StorageTools:
         path = os.path.join(storage_path, name)
         logger.debug("Writing %s" % path)
 
-        with open(path, 'w' if type(val) is str else 'wb') as attrFile:
+        # write to a temporary file and rename it into place, so that a crash while saving leaves either the
+        # previous or the new content behind, never a truncated file
+        tmp_path = path + ".tmp"
+        with open(tmp_path, 'w' if type(val) is str else 'wb') as attrFile:
             attrFile.write(val)
+        os.replace(tmp_path, path)
 
     @staticmethod
     def readProfileData(profile_name, name, default=None):
